@@ -4,6 +4,11 @@ from .. import paths as P
 from ..facts import walk
 
 META = ("other",
+        "By symbolic interpretation (shape rules as fallback): Value::eq is interpreted on every pair of variants with payloads "
+        "NULL / a and on every pair of payloads NULL / a / b of one variant (4263 rows): equal exactly when variant and payload "
+        "are the same, symmetric; Value::hash is interpreted on every variant: the discriminant is fed first; what eq compares "
+        "and what hash feeds are recorded with the normal form they are wrapped in (OrderedFloat, serde_json::to_string, plain) "
+        "and must agree per variant, float payloads never in plain form.  "
         "C18.R1 Value::eq is diagonal and total: one arm per enabled variant pairing it with itself, no cross-variant arm, "
         "wildcard => false; R2 per variant the comparator used by eq and the hasher used by hash form a coherent pair (== with "
         ".hash on the same non-float payload type; cmp_f32/hash_f32, cmp_f64/hash_f64 both through OrderedFloat; cmp_json/"
@@ -119,7 +124,12 @@ def _payloads(f, vdef, fields):
         return [("null", lead + [None]), ("a", lead + [some([Sym("a0"), Sym("a1")])]), ("b", lead + [some([Sym("a0"), Sym("b1")])]), ("short", lead + [some([Sym("a0")])])]
     if "Vec<crate::value::Value>" in t:
         el = lambda s_: Var(V + "::Int", [some(Sym(s_))])
-        return [("null", lead + [None]), ("a", lead + [some([el("a")])]), ("b", lead + [some([el("b")])])]
+        out = [("null", lead + [None]), ("a", lead + [some([el("a")])]), ("b", lead + [some([el("b")])])]
+        if lead:
+            # the leading components (the element type of an array) vary too: another type with the same payloads
+            lead2 = [Var("crate::value::ArrayType::String")] * len(lead)
+            out += [("null/other-type", lead2 + [None]), ("a/other-type", lead2 + [some([el("a")])]), ("empty", lead + [some([])]), ("empty/other-type", lead2 + [some([])])]
+        return out
     return [("null", lead + [None]), ("a", lead + [some(Sym("a"))]), ("b", lead + [some(Sym("b"))])]
 
 
@@ -143,12 +153,15 @@ def check_symbolic(run, f, cfg, variants, eqn, hn):
         # eq on every pair of variants (payload a / null) and every pair of payloads of one variant
         eqres = {}
         eqcmp = {}
+        same = {}
         for d1, l1 in vals.items():
             for d2, l2 in vals.items():
                 for lab1, v1 in l1:
                     for lab2, v2 in l2:
                         if d1 != d2 and (lab1 not in ("null", "a") or lab2 not in ("null", "a")):
                             continue
+                        if d1 == d2:
+                            same[(d1, lab1, lab2)] = None
                         it, rec = _sym_engine(f)
                         r = it.call_fn(eqn, [v1, v2])
                         if not isinstance(r, bool):
@@ -173,6 +186,10 @@ def check_symbolic(run, f, cfg, variants, eqn, hn):
                 ["%s(%s) == %s(%s)" % (d1.rsplit("::", 1)[-1], x, short, y) for (d1, x, d2, y), r in eqres.items() if d2 == d and d1 != d and r]
         run.ob("C18.R1", "eq:covered:%s" % short, not cross, "a %s value never equals a value of another variant (both orders, NULL and non-NULL)%s" % (
             short, "" if not cross else " - NOT: " + "; ".join(cross[:3])), sp=eqfn["sp"], cfg=cfg)
+        # equal values hash equally: whenever eq holds, the two hash traces are the same
+        incoh = ["%s == %s but they are hashed differently" % (x, y) for x in labs for y in labs if eqres[(d, x, d, y)] and htrace[(d, x)] != htrace[(d, y)]]
+        run.ob("C18.R2", "hash:coherent:%s" % short, not incoh, "two %s values that eq holds for feed the same sequence to the hasher (%d pairs)%s" % (
+            short, len(labs) ** 2, "" if not incoh else " - NOT: " + "; ".join(incoh[:3])), sp=hfn["sp"], cfg=cfg)
         # pairing of normal forms
         ht = htrace[(d, "a")]
         hn0 = htrace[(d, "null")]
